@@ -4,14 +4,19 @@ EXTENDS Util, FA, Regex
 
 BadR(name, cond) == IF cond THEN {name} ELSE {}
 
+(* a symbol whose name has several characters matches that string: the harness gives the tree with every such *)
+(* symbol spelled out as a concatenation of one-character symbols (same denotation over character words)      *)
+SemRe(e) == IF "sem" \in DOMAIN e THEN e.sem ELSE e.re
+SemRes(e) == IF "res_sem" \in DOMAIN e THEN e.res_sem ELSE e.res
+
 JReAccepts(e) ==
   LET acc == ToSet(e.accepted)
       S == ToSet(e.sigma)
-  IN BadR("matches_denotation", \E w \in WordsUpTo(S, e.n) : (w \in acc) # Matches(e.re, w))
+  IN BadR("matches_denotation", \E w \in WordsUpTo(S, e.n) : (w \in acc) # Matches(SemRe(e), w))
 
 JReSimplify(e) ==
   IF e.exc # "none" THEN {"raised_" \o e.exc}
-  ELSE BadR("same_language_exact", ~ReEquiv(e.re, e.res))
+  ELSE BadR("same_language_exact", ~ReEquiv(SemRe(e), SemRes(e)))
        \cup BadR("not_larger", Nodes(e.res) > Nodes(e.re))
 
 JReToNfa(e) ==
